@@ -643,7 +643,7 @@ class C38(core.Check):
     GEN = []
     PROPS = 'props/C38.v'
     MODEL_IMPORTS = ['model.Events']
-    QUICK_CASES = 450
+    QUICK_CASES = 320
     THOROUGH_CASES = 1500
     ALLOWED_AXIOMS = set()
     TRUSTED = ['hand model model/Events.v of BasicEvents.command / EventHandler flags / '
